@@ -1,6 +1,6 @@
 """unit codec: codec/rle.rs + core/event.rs BitmapEvent::decompress.  Properties C08 (total, exact size), C09 (pixel exact)."""
 from vx.spec import *
-from specs.rle16_fn import RLE16, RLE16_CONTRACT
+from specs.rle16_safe import RLE16, RLE16_CONTRACT  # stable safety proof; specs/rle16_fn.py is the functional proof under construction (unit codec16)
 
 RLE = "src/codec/rle.rs"
 EVT = "src/core/event.rs"
